@@ -213,7 +213,19 @@ def small_case(c, sched):
            "drain": False}
     if any(junk_of(c)):
         out["junk"] = junk_of(c)
+    if c.get("based"):
+        out["based"] = True
     return out
+
+
+def project(r):
+    """the run as the model sees it: the steps spent inside getLockPath(d, create=True) - only there when the site
+    keeps its locks under hooks.config.site.lockDirectoryBase - change nothing the model has (the process stays
+    `at its mkdir`), so they are dropped from schedule and trace.  -> (indices kept, schedule, trace)"""
+    sched = [tuple(x) for x in r["schedule"]]
+    st = r.get("stutter") or [False] * len(sched)
+    keep = [i for i in range(len(sched)) if not st[i]]
+    return keep, [sched[i] for i in keep], [r["trace"][0]] + [r["trace"][i + 1] for i in keep]
 
 
 # ---- the file-name layer: classes of login names, of pids and of foreign entries (for the histogram)
@@ -307,7 +319,7 @@ def check_cases(ctx, cases, key, validate=True):
     """run implementation and model on the cases, compare step by step, evaluate the oracle.  Returns the
     list of (effective schedule, model states) per case."""
     ires = run_impl(cases)
-    lines = [case_line(REPAIRED, c, [tuple(x) for x in r["schedule"]]) for c, r in zip(cases, ires)]
+    lines = [case_line(REPAIRED, c, project(r)[1]) for c, r in zip(cases, ires)]
     mres = [parse_model(l, c["procs"]) for c, l in zip(cases, ctx.model(lines))]
     redo = []
     results = []
@@ -316,21 +328,26 @@ def check_cases(ctx, cases, key, validate=True):
         trace = r["trace"]
         busy = max(sum(1 for op in ops_of(t).values() if op not in TERMINAL and not op.startswith("mkdir"))
                    for t in trace)
-        ctx.count(1, key=key + "/" + shape_of(c), nontrivial=lines[idx] if busy >= 2 else None)
+        keep, msched, mtrace = project(r)
+        based = "+base" if c.get("based") else ""
+        ctx.count(1, key=key + based + "/" + shape_of(c),
+                  nontrivial=(lines[idx] + based + str(r.get("stutter") if based else "")) if busy >= 2 else None)
+        if based:
+            ctx.bump("lockDirectoryBase/steps-inside-getLockPath", len(sched) - len(msched))
         name_layer_histogram(ctx, c)
         # which branches of the model this trace exercises (evidence: every arrow validated at least once)
-        for k, (pid, _ch) in enumerate(sched):
+        for k, (pid, _ch) in enumerate(msched):
             if k + 1 < len(m):
                 a, b = loc_of(m[k][1], pid), loc_of(m[k + 1][1], pid)
                 if a not in ("LDone", "LFailed", "LCrashed"):
                     ctx.bump("arrow/%s->%s" % (a, b))
         # correspondence
-        bad = next((k for k in range(len(trace)) if k >= len(m) or m[k][0] != trace[k]), None)
+        bad = next((k for k in range(len(mtrace)) if k >= len(m) or m[k][0] != mtrace[k]), None)
         if bad is None:
             if validate:
                 ctx.traces_validated += 1
         else:
-            redo.append((idx, bad))
+            redo.append((idx, bad, 0 if bad == 0 else keep[bad - 1] + 1))
         # the model's own oracle must be true on the repaired model (it is a theorem)
         if any(not ok for _, _, ok in m):
             ctx.proof_problems.append({"theorem": "mutex_okb_reachable",
@@ -356,24 +373,24 @@ def check_cases(ctx, cases, key, validate=True):
             ctx.fail("residue", small_case(c, sched),
                      expected="nothing of the processes left once every one of them has finished",
                      observed={"state": trace[-1]}, what="lock directory or lock file left behind")
-        results.append((sched, m))
+        results.append((msched, m))
     if redo:
         # does the implementation follow an earlier version of the protocol instead?  (diagnosis only)
         sub = redo[:200]
         alt = {}
         for name, flags in (("WITHOUT release-on-failure", NORELEASE), ("PINNED", PINNED)):
-            out = ctx.model([case_line(flags, cases[i], [tuple(x) for x in ires[i]["schedule"]]) for i, _ in sub])
-            for (i, _), pl in zip(sub, out):
+            out = ctx.model([case_line(flags, cases[i], project(ires[i])[1]) for i, _, _ in sub])
+            for (i, _, _), pl in zip(sub, out):
                 pm = parse_model(pl, cases[i]["procs"])
-                tr = ires[i]["trace"]
+                tr = project(ires[i])[2]
                 if i not in alt and all(k < len(pm) and pm[k][0] == tr[k] for k in range(len(tr))):
                     alt[i] = name
-        for i, bad in redo:
-            where = "state %d of the trace" % bad
+        for i, bad, rawbad in redo:
+            where = "state %d of the trace" % rawbad
             if i in alt:
                 where += "; the implementation agrees with the model of the protocol %s on this schedule" % alt[i]
             mm = mres[i][bad][0] if bad < len(mres[i]) else None
-            ctx.disagree(small_case(cases[i], ires[i]["schedule"][:bad]), mm, ires[i]["trace"][bad], where=where)
+            ctx.disagree(small_case(cases[i], ires[i]["schedule"][:rawbad]), mm, ires[i]["trace"][rawbad], where=where)
     return results
 
 
@@ -531,6 +548,8 @@ def gen_random(rng):
         junk = gen_junk(rng, stacks)
         if junk:
             case["junk"] = junk
+    if rng.random() < 0.3:
+        case["based"] = True        # the site keeps its locks under hooks.config.site.lockDirectoryBase
     return case
 
 
@@ -543,6 +562,31 @@ def hold_then_rival(holder, rival, junk=None):
     if junk:
         c["junk"] = [list(junk)]
     return c
+
+
+def gen_release_race(rng):
+    """a holder releases the last lock of a stack while a second requester is parked at each of its first calls
+    (under lockDirectoryBase: inside getLockPath, or between getLockPath and its mkdir); the second then goes on
+    for one to four calls before a third requester arrives; all kinds, with the locks in the stack and under
+    hooks.config.site.lockDirectoryBase"""
+    out = []
+    for based in (False, True):
+        take = 4 + (2 if based else 0)
+        for hk in "SE":
+            for rk in "SE":
+                for wk in "SE":
+                    for j in range(4):
+                        for m in range(1, 5):
+                            h, r, w = gen_pids(rng, 3)
+                            procs = [{"pid": h, "kind": hk, "root": None, "ntry": 1},
+                                     {"pid": r, "kind": rk, "root": None, "ntry": 2},
+                                     {"pid": w, "kind": wk, "root": None, "ntry": 1}]
+                            sched = [[h, 0]] * take + [[r, 0]] * j + [[h, 0]] * 8 + [[r, 0]] * m + [[w, 0]] * 12
+                            c = {"mode": "lock", "stacks": 1, "procs": procs, "schedule": sched, "drain": True}
+                            if based:
+                                c["based"] = True
+                            out.append(c)
+    return out
 
 
 def gen_names(rng):
@@ -691,6 +735,185 @@ def check_registration(ctx, rows):
     return res
 
 
+# ------------------------------------------------------------------ WHICH stacks a command locks
+#
+# The mutual exclusion of the protocol is per stack (theorem mutex): a command excludes the others exactly on the
+# stacks it has locked.  So every command must take its locks on the stacks it is going to work on - the ones its
+# Eups object ends up with (Eups.path) - however they were named: $EUPS_PATH of one or several stacks, -Z /
+# --database / --with-eups before or after the command word, -z, or several of these at once.
+# Three scratch stacks: alpha/stack0, alpha/stack1, beta/stack2 (so that -z alpha and -z beta select).
+
+PATH_DIRS = ["alpha/stack0", "alpha/stack1", "beta/stack2"]
+
+# variant -> (EUPS_PATH, options before the command word, options after the command line); an option is
+# ("Z", [stacks]) or ("z", directory name)
+PATH_VARIANTS = [
+    ("env1", [0], [], []),
+    ("env2", [0, 1], [], []),
+    ("env3-dup", [1, 0, 1, 2], [], []),
+    ("Z-before", [0], [("Z", [2])], []),
+    ("Z-after", [0], [], [("Z", [2])]),
+    ("Z2-after", [0, 1], [], [("Z", [2, 1])]),
+    ("Z-before+Z-after", [0], [("Z", [1])], [("Z", [2])]),
+    ("Z-after-subset", [0, 1, 2], [], [("Z", [1])]),
+    ("z-before", [0, 1, 2], [("z", "alpha")], []),
+    ("z-after", [0, 1, 2], [], [("z", "beta")]),
+    ("Z-after+z-before", [0], [("z", "alpha")], [("Z", [0, 2])]),
+    ("Z-before+z-after", [2], [("Z", [0, 1, 2])], [("z", "stack1")]),
+]
+Z_SPELLINGS = [lambda v: ["-Z", v], lambda v: ["--database", v], lambda v: ["--database=" + v],
+               lambda v: ["--with-eups", v], lambda v: ["-Z" + v]]
+z_SPELLINGS = [lambda v: ["-z", v], lambda v: ["--select-db", v], lambda v: ["--select-db=" + v]]
+
+
+def expected_stacks(env, before, after):
+    """independent statement of `the stacks the command will use` (indices into PATH_DIRS): the last -Z of the
+    whole command line if there is one, else $EUPS_PATH; restricted by the last -z to the stacks that have a
+    directory of that name in their path; each stack once, in order"""
+    zs = [v for o, v in before + after if o == "Z"]
+    sel = [v for o, v in before + after if o == "z"]
+    path = list(zs[-1]) if zs else list(env)
+    if sel:
+        path = [k for k in path if sel[-1] in PATH_DIRS[k].split("/")]
+    out = []
+    for k in path:
+        if k not in out:
+            out.append(k)
+    return out
+
+
+def path_jobs(rng=None, commands=None):
+    jobs = []
+    table = dict(MUTATING)
+    table.update(READERS)
+    for name in (commands or list(MUTATING) + list(READERS)):
+        for vname, env, before, after in PATH_VARIANTS:
+            sp = [(rng.randrange(len(Z_SPELLINGS)) if rng else 0, rng.randrange(len(z_SPELLINGS)) if rng else 0)
+                  for _ in before + after]
+            jobs.append({"mode": "lockpath", "command": name, "variant": vname, "env": list(env),
+                         "before": [list(x) for x in before], "after": [list(x) for x in after],
+                         "spell": [list(x) for x in sp],
+                         "base": ["nosuch"] if name == "setup" else list(table[name])})
+    return jobs
+
+
+def job_argv(job, stacks):
+    def words(opts, spell):
+        out = []
+        for (o, v), (a, b) in zip(opts, spell):
+            out += Z_SPELLINGS[a](":".join(stacks[k] for k in v)) if o == "Z" else z_SPELLINGS[b](v)
+        return out
+    nb = len(job["before"])
+    return words(job["before"], job["spell"][:nb]) + list(job["base"]) + words(job["after"], job["spell"][nb:])
+
+
+def spy_paths(jobs, stacks, userdata):
+    """Runs in a forked child: every job's command line through the real EupsCmd.run / EupsSetup.run.
+    lock.takeLocks is replaced by a recorder (type and PATH argument; nothing is locked) and the command is
+    stopped as soon as its Eups object has been constructed: the stacks that object works on (Eups.path without
+    the user's own data directory) are what the locks have to cover."""
+    import io
+    import sys
+    common.import_eups()
+    import eups
+    import eups.cmd as C
+    import eups.setupcmd as SC
+    from eups import lock
+    names = {None: None, lock.LOCK_SH: "Sh", lock.LOCK_EX: "Ex"}
+
+    class Stop(BaseException):
+        pass
+    calls, used = [], []
+
+    def fake(cmdName, path, lockType, **kw):
+        calls.append([cmdName, names.get(lockType, repr(lockType)), [os.path.normpath(p) for p in path]])
+        return []
+    lock.takeLocks = fake
+    real_init = eups.Eups.__init__
+
+    def init(self, *a, **k):
+        real_init(self, *a, **k)
+        used.append([os.path.normpath(p) for p in self.path if os.path.normpath(p) != os.path.normpath(userdata)])
+        raise Stop()
+    eups.Eups.__init__ = init
+    index = {os.path.normpath(s): k for k, s in enumerate(stacks)}
+
+    def idx(paths):
+        return None if paths is None else [index.get(p, p) for p in paths]
+    env0 = dict(os.environ)
+    out = []
+    for job in jobs:
+        del calls[:]
+        del used[:]
+        os.environ.clear()
+        os.environ.update(env0)
+        os.environ["EUPS_PATH"] = ":".join(stacks[k] for k in job["env"])
+        sys.modules["eups.db.Database"]._databases.clear()
+        argv = job_argv(job, stacks)
+        err = None
+        so, se = sys.stdout, sys.stderr
+        sys.stdout = sys.stderr = io.StringIO()
+        try:
+            try:
+                if job["command"] == "setup":
+                    SC.EupsSetup(args=list(argv), toolname="eups_setup").run()
+                else:
+                    C.EupsCmd(args=list(argv), toolname="eups").run()
+            except Stop:
+                pass
+            except BaseException as e:  # noqa
+                err = "%s: %s" % (type(e).__name__, str(e)[:200])
+        finally:
+            sys.stdout, sys.stderr = so, se
+        real = [c for c in calls if c[1] is not None]
+        out.append({"command": job["command"], "variant": job["variant"], "argv": argv,
+                    "type": real[0][1] if real else None, "locked": idx(real[0][2]) if real else None,
+                    "used": idx(used[0]) if used else None, "ncalls": len(real), "error": err})
+    return out
+
+
+def check_lock_paths(ctx, jobs, key="lockpath"):
+    scratch = common.scratch_dir("eups-verif-c09p.")
+    try:
+        stacks = [os.path.join(scratch, d) for d in PATH_DIRS]
+        ud = os.path.join(scratch, "ud")
+        for s in stacks + [ud]:
+            os.makedirs(os.path.join(s, "ups_db"))
+        env = common.scrubbed_environ({"EUPS_PATH": stacks[0], "EUPS_USERDATA": ud, "EUPS_FLAVOR": "Linux64",
+                                       "HOME": scratch})
+        r = common.in_child(spy_paths, jobs, stacks, ud, environ=env, timeout=300)
+    finally:
+        shutil.rmtree(scratch, ignore_errors=True)
+    if r[0] != "ok":
+        raise RuntimeError("lock path driver failed: %r" % (r,))
+    for job, j in zip(jobs, r[1]):
+        want = expected_stacks(job["env"], [tuple(x) for x in job["before"]], [tuple(x) for x in job["after"]])
+        case = dict(job)
+        case["argv"] = job_argv(job, PATH_DIRS)     # (with the stacks by their names relative to the scratch directory)
+        kind = "Ex" if job["command"] in MUTATING else "Sh"
+        if j["used"] is None:
+            # the command never got as far as an Eups object (it has no stack to work on): nothing to cover
+            ctx.count(1, key="%s/%s/%s/no-eups-object" % (key, kind, job["variant"]), nontrivial=None)
+            continue
+        ctx.count(1, key="%s/%s/%s" % (key, kind, job["variant"]),
+                  nontrivial="lockpath:%s:%s" % (job["command"], job["variant"]))
+        ctx.bump("lockpath-stacks-used/%d" % len(j["used"]))
+        locked = j["locked"] if j["locked"] is not None else []
+        # the property: the command holds its lock on every stack it works on
+        missing = [k for k in j["used"] if k not in locked]
+        if missing:
+            ctx.fail("works-on-unlocked-stack", case, expected={"locked": j["used"]},
+                     observed={"type": j["type"], "locked": j["locked"], "used": j["used"], "unlocked": missing,
+                               "error": j["error"]},
+                     what="eups %s locks the stacks %s but works on the stacks %s (indices into %s)"
+                     % (" ".join(case["argv"]), j["locked"], j["used"], PATH_DIRS))
+        # correspondence with the statement of what the command line means (Model/LockCmd.v: stacks_of)
+        elif j["locked"] != want or j["used"] != want:
+            ctx.disagree(case, {"locked": want, "used": want}, {"locked": j["locked"], "used": j["used"]},
+                         where="stacks of the command line vs spied takeLocks path and Eups.path")
+    return r[1]
+
+
 def coq_lists():
     """the two command lists as written in coq/Model/Lock.v (to keep the harness copy honest)"""
     import re
@@ -754,7 +977,20 @@ def setup_ctx(ctx):
                 "and every foreign entry of the pool under every pair of kinds.  A schedule "
                 "is non-trivial when at some point two processes are inside takeLocks/giveLocks at once; distinct = "
                 "distinct (configuration, schedule).  Registration: every command of the two lists dispatched "
-                "through the real EupsCmd.run with takeLocks spied.")
+                "through the real EupsCmd.run with takeLocks spied.  Lock path: every command of the two lists "
+                "under twelve ways of naming its stacks (EUPS_PATH of one, two, three stacks with a repetition; -Z / "
+                "--database / --with-eups before the command word, after the command line, both; -z / --select-db "
+                "before and after; -Z with -z) through the real EupsCmd.run / EupsSetup.run on three scratch stacks: "
+                "the PATH argument of the spied takeLocks against the stacks of the Eups object the command then "
+                "constructs (Eups.path without the user's data directory) and against the independent reading of "
+                "the command line (expected_stacks; Model/LockCmd.v states the same function).  lockDirectoryBase: "
+                "30% of the random schedules and the directed family `release-race` (the last holder releases while "
+                "a second requester is parked at each of its first calls, a third arrives after the second has made "
+                "one to four more calls; all kinds; with and without the option) run with "
+                "hooks.config.site.lockDirectoryBase set: the look-up and creation of <base>/<stack> inside "
+                "getLockPath(d, create=True) are steps of the schedule (dropped before the comparison with the "
+                "model, which they do not change), os.removedirs - should the release use it - is a sequence of rmdir "
+                "steps.")
     ctx.trusted_base = common.COMMON_TRUSTED + [
         "modelled, not verified: POSIX atomicity of mkdir, open(O_CREAT|O_EXCL), unlink, rmdir (fails on a non-empty "
         "directory); a directory listing returns the entries present at the instant of the call",
@@ -765,12 +1001,22 @@ def setup_ctx(ctx):
         "choice of listing order",
         "harness/translate_locks.py: python ast -> coq/Generated/Locks.v, fail-closed; cross-checked every run against "
         "the running cmd module and the spied takeLocks calls",
+        "harness/c09.py spy_paths: eups.Eups.__init__ wrapped to read Eups.path and stop the command; lock.takeLocks "
+        "replaced by a recorder",
+        "harness/c09_sched.py: os.makedirs inside getLockPath is one step (the real call makes the components one by "
+        "one); os.path.isabs is not a step",
     ]
     ctx.assumptions = [
         "one takeLocks (on a path of distinct stacks) followed by one giveLocks per process, ntry >= 1",
         "only EEXIST failures of mkdir are modelled (EACCES / read-only stacks, for which takeLocks deliberately "
         "proceeds unlocked, are outside the property)",
-        "signals, atexit handlers, hooks.config.site.lockDirectoryBase relocation, NFS and pid reuse are not modelled",
+        "signals, atexit handlers, NFS and pid reuse are not modelled; hooks.config.site.lockDirectoryBase is not in "
+        "the Coq model (the directories above the lock directory are not part of its state): the runs with the option "
+        "are tied to the model by dropping the steps inside getLockPath, and judged by the oracle on the real run",
+        "lock path: commands that never construct an Eups object (admin clearCache, distrib clean on the scratch "
+        "stacks) are counted as no-eups-object and not judged; the user's data directory, which Eups appends to its "
+        "path, is nobody's stack and is not expected to be locked; Model/LockCmd.v is not extracted - the harness "
+        "carries the same function (expected_stacks)",
         "login names are not empty and hold no newline and no slash (users_ok); foreign entries are plain files, never "
         "sub-directories; pids above 32767 occur only as the pid field of stale lock files (the extracted model counts "
         "in unary); mutex_named is proved from empty lock directories - with foreign entries the name-level model is "
@@ -808,6 +1054,11 @@ def run(ctx):
     if rows is not None:
         check_registration(ctx, rows)
     lap("registration")
+    # 2b. which stacks each command locks against the stacks it works on
+    pj = path_jobs(ctx.rng)
+    ctx.sample(pj[4])
+    check_lock_paths(ctx, pj)
+    lap("lockpath")
     # 3. corpus
     corpus = [c for c in corpus_cases() if c.get("mode", "lock") == "lock"]
     if corpus:
@@ -820,6 +1071,11 @@ def run(ctx):
     ctx.sample(named[5])
     check_cases(ctx, named, "names")
     lap("names")
+    # 3c. the last holder releases while another requester is on its way in, with and without lockDirectoryBase
+    race = gen_release_race(ctx.rng)
+    ctx.sample(race[-1])
+    check_cases(ctx, race, "release-race")
+    lap("release-race")
     # 4. exhaustive two-process exploration
     cap = ctx.size(20000, 400000)
     configs = []
@@ -858,6 +1114,9 @@ def replay(ctx, path):
         rows = translate_locks.generate()
         check_registration(ctx, rows)
         ctx.failures = [f for f in ctx.failures if f["input"].get("command") == c.get("command")]
+    elif c.get("mode") == "lockpath":
+        for j in check_lock_paths(ctx, [c], "replay"):
+            print("  %s: lock %s on stacks %s, works on stacks %s" % (" ".join(j["argv"]), j["type"], j["locked"], j["used"]))
     else:
         check_cases(ctx, [c], "replay")
         for f in ctx.failures:
